@@ -48,7 +48,11 @@ RECURSIVE ApplyW(_, _)
 ApplyW(m, ws) == IF ws = <<>> THEN m
                  ELSE LET w == Head(ws) IN ApplyW(IF w.del THEN Del(m, w.k) ELSE Put(m, w.k, w.v), Tail(ws))
 
-Root(v, ty, c, par) == [v |-> v, ty |-> ty, c |-> c, par |-> par, fin |-> FALSE]
+\* Whether a root was built on the previous version's root or from the empty tree is state of the real databases (the legacy
+\* backend records derived roots per root and prunes only "lone" roots node by node).  With TrackLineage (overridden to TRUE in
+\* a config) it is model state, too, so that generation emits histories for both lineages of otherwise equal roots.
+TrackLineage == FALSE
+Root(v, ty, c, par, lin) == [v |-> v, ty |-> ty, c |-> c, par |-> par, fin |-> FALSE, lin |-> IF TrackLineage THEN lin ELSE "x"]
 \* par: {} or {contents of the same-version parent candidate}
 
 NextV(s) == s.lastFin + 1
@@ -87,7 +91,7 @@ Step(s, op) ==
             LET c == ApplyW(op.pc, op.writes)
                 exists == \E r \in s.roots : r.v = op.v /\ r.ty = op.ty /\ r.c = c
             IN  IF exists \/ Cardinality(Cands(s, op.ty)) >= MaxCand THEN s
-                ELSE [s EXCEPT !.roots = @ \cup {Root(op.v, op.ty, c, IF op.parent = "same" THEN {op.pc} ELSE {})}]
+                ELSE [s EXCEPT !.roots = @ \cup {Root(op.v, op.ty, c, IF op.parent = "same" THEN {op.pc} ELSE {}, op.parent)}]
       [] op.a = "finalize" ->
             LET keep == op.chosen \cup UNION {Ancestors(s, r) : r \in op.chosen}
                 drop == {r \in s.roots : r.v = op.v} \ keep
